@@ -296,6 +296,15 @@ func (rw *rewriter) isChan(e ast.Expr) bool {
 	return ok
 }
 
+func (rw *rewriter) isSlice(e ast.Expr) bool {
+	t := rw.typeOf(e)
+	if t == nil {
+		return false
+	}
+	_, ok := t.Underlying().(*types.Slice)
+	return ok
+}
+
 func (rw *rewriter) isMap(e ast.Expr) bool {
 	t := rw.typeOf(e)
 	if t == nil {
@@ -949,6 +958,16 @@ func (rw *rewriter) raceExprs(f *ast.File) {
 			call := rw.simrt(fn, &ast.UnaryExpr{Op: token.AND, X: x}, str(rw.file+":"+rw.fieldSite(x)))
 			return &ast.ParenExpr{X: &ast.StarExpr{X: call}}
 		case *ast.IndexExpr:
+			if rw.isSlice(x.X) {
+				// an element of a slice is a location of its own (round 5)
+				done[x] = true
+				fn := "R"
+				if writes[x] {
+					fn = "W"
+				}
+				call := rw.simrt(fn, &ast.UnaryExpr{Op: token.AND, X: x}, str(rw.file+":"+strings.Replace(rw.exprSite(x.X), "map(", "slice(", 1)+"[i]"))
+				return &ast.ParenExpr{X: &ast.StarExpr{X: call}}
+			}
 			if !rw.isMap(x.X) {
 				return nil
 			}
